@@ -14,21 +14,29 @@
       it (C07_identifier_*, C07_keyword_*, C07_statement_keyword_*);
     * string literals denote exactly the written characters under the escape table, integer literals their decimal
       value (C07_string_literal, C07_integer_literal).
-    * ROUND TRIP FOR EXPRESSIONS (C07_roundtrip_*; helper lemmas in Tsg/Proofs/ParserRound.lean): the class of texts
-      that `parse_expression` reads back exactly (`ExprText`: the written expression, the locations of the places
-      where its parts start, exactly the written characters consumed) contains every atom (`#true`/`#false`/`#null`,
-      integers, strings, captures, regex captures, variables) and is closed under EVERY production of the
-      expression grammar — scoped-variable chains `e.a.b`, calls `(f e*)`, list and set literals (empty, single,
-      many, with optional trailing comma), list and set comprehensions — with an arbitrary layout gap (whitespace,
-      line breaks, comments) at every place the grammar allows one. The side conditions are exactly the lexical
-      ones a printer has to respect (a name is not followed by a name character, a number not by a digit, `.`
-      does not follow an expression that is not meant to be scoped, …).
-  What is NOT a theorem: the same composition for statements, stanzas and whole files (`parse (print file layout)
-  = file`). That part is covered by the correspondence check (implementation AST = model AST on generated
-  programs under random layouts, and both = the AST of the house layout modulo locations).
+    * ROUND TRIP, THE WHOLE GRAMMAR (C07_roundtrip_*; helper lemmas in Tsg/Proofs/ParserRound.lean — expressions,
+      ParserSpell.lean — sequencing of round trips, ParserRoundStmt.lean — statements, ParserRoundFile.lean — files):
+      `C07_roundtrip_file`: a text made of a leading gap and any sequence of globals, attribute shorthands, inherit
+      declarations and stanzas, each well-formed in front of what follows it and separated by arbitrary layout
+      (whitespace, line breaks, `;` comments), parses to EXACTLY the file its items denote — every statement,
+      expression, name, string, number and every recorded location, in order — for texts of every length and nesting
+      depth. It is assembled from one theorem per production: every atom, `.name` chain, call, list/set literal and
+      comprehension (expressions); `let`/`var`/`set`, `node`, `edge`, `attr` on nodes and edges with attribute lists,
+      `print`, `scan` with its regex arms, `if`/`elif`/`else` with `some`/`none`/boolean conditions, `for`, blocks
+      (statements); globals with quantifier and default, attribute shorthands, `inherit`, stanzas (files). The
+      side conditions are exactly the lexical ones a printer has to respect (a name is not followed by a name
+      character, a number not by a digit, a bare boolean condition does not begin with the word `some`/`none`, a
+      stanza's query does not begin with `attribute`/`global`/`inherit`, the query text has its first `{` outside
+      strings and comments where the body starts, …) plus the answers of the two oracles (tree-sitter accepts the
+      query as one pattern; the regex crate accepts the scan patterns), and a fuel bound that is an artefact of the
+      model (`C05_parser_terminates` shows the parser never runs out of it).
+  What is NOT a theorem: that the side conditions are NECESSARY (texts violating them are covered by the
+  correspondence check: implementation AST = model AST on generated programs under random layouts, damaged texts
+  included), and the two oracles.
 -/
 import Tsg.Proofs.ParserTok
 import Tsg.Proofs.ParserRound
+import Tsg.Proofs.ParserRoundFile
 
 namespace C07
 open PP Parser
@@ -339,5 +347,314 @@ example (o : POracle) (hf : 30 ≤ o.fuel) :
   rw [h]
   simp [initState, compText, exElem, exValue, chainText, chainExpr, Atom.text, Atom.expr, segsText, openC, closeC, advL, locOf]
   decide
+
+/-! ### round trip for statements, stanzas and files
+
+`SpellsAt o p s cs a F`: the parser program `p`, started in state `s` in front of `cs ++ tail` for any `tail`
+satisfying `F`, returns `a` and stops exactly behind `cs`. `StmtText` is the same for `parse_statement` at every
+sufficient fuel. -/
+
+/-- `let` / `var` / `set` -/
+theorem C07_roundtrip_stmt_decl (o : POracle) (k : DeclKind) (g1 : List Char) (v : VarItem) (g2 : List Char) (e : Item)
+    (hg1 : Gap o g1) (hg2 : Gap o g2) (hv : v.OK o) (he : ExprText o e.n e.cs e.rd e.F)
+    (hkwfol : ∀ x, (g1 ++ v.it.cs).head? = some x → isIdent o x = false)
+    (hvs : v.it.Starts o) (hes : e.Starts o) (hvF : v.it.F (some '=')) :
+    StmtText o (max v.it.n e.n + 2) (declText k g1 v g2 e)
+      (fun s =>
+        let sV := advL s (k.kw.toList ++ g1)
+        let sE := advL sV (v.it.cs ++ "=".toList ++ g2)
+        k.mk (v.vr sV) (e.rd sE) (locOf s))
+      (fun t => e.F t.head?) := by
+  apply stmtText_decl <;> assumption
+
+/-- `node VAR` -/
+theorem C07_roundtrip_stmt_node (o : POracle) (g1 : List Char) (v : VarItem) (hg1 : Gap o g1) (hv : v.OK o)
+    (hkwfol : ∀ x, (g1 ++ v.it.cs).head? = some x → isIdent o x = false) (hvs : v.it.Starts o) :
+    StmtText o (v.it.n + 2) (nodeText g1 v)
+      (fun s => .createNode (v.vr (advL s ("node".toList ++ g1))) (locOf s)) (fun t => v.it.F t.head?) := by
+  apply stmtText_node <;> assumption
+
+/-- `edge A -> B` -/
+theorem C07_roundtrip_stmt_edge (o : POracle) (g1 : List Char) (a : Item) (g2 : List Char) (b : Item)
+    (hg1 : Gap o g1) (hg2 : Gap o g2) (ha : ExprText o a.n a.cs a.rd a.F) (hb : ExprText o b.n b.cs b.rd b.F)
+    (hkwfol : ∀ x, (g1 ++ a.cs).head? = some x → isIdent o x = false)
+    (has : a.Starts o) (hbs : b.Starts o) (haF : a.F (some '-')) :
+    StmtText o (max a.n b.n + 1) (edgeText g1 a g2 b)
+      (fun s =>
+        let sA := advL s ("edge".toList ++ g1)
+        let sB := advL sA (a.cs ++ "->".toList ++ g2)
+        .createEdge (a.rd sA) (b.rd sB) (locOf s))
+      (fun t => b.F t.head?) := by
+  apply stmtText_edge <;> assumption
+
+/-- an attribute `name = EXPR` -/
+theorem C07_roundtrip_attr_valued (o : POracle) (nc : Char) (nrest gA gB : List Char) (e : Item)
+    (hnc : isIdentStart o nc = true) (hnr : ∀ x ∈ nrest, isIdent o x = true)
+    (hgA : Gap o gA) (hgB : Gap o gB) (he : ExprText o e.n e.cs e.rd e.F) (hes : e.Starts o)
+    (hnfol : ∀ x, (gA ++ ['=']).head? = some x → isIdent o x = false) :
+    AttrText o (attrValued o nc nrest gA gB e) := by
+  apply attrText_valued <;> assumption
+
+/-- an attribute `name` (value `#true`) -/
+theorem C07_roundtrip_attr_bare (o : POracle) (nc : Char) (nrest gA : List Char)
+    (hnc : isIdentStart o nc = true) (hnr : ∀ x ∈ nrest, isIdent o x = true) (hgA : Gap o gA) :
+    AttrText o (attrBare o nc nrest gA) := by
+  apply attrText_bare <;> assumption
+
+/-- attribute lists `ATTR (, ATTR)*` -/
+theorem C07_roundtrip_attributes (o : POracle) (first : AttrItem) (items : List (List Char × AttrItem)) (fuel : Nat) (s : PS)
+    (hfirst : AttrText o first) (hfu1 : first.n ≤ fuel) (hfu2 : attrsFuel items ≤ fuel) (hlen : items.length < fuel) (hf5 : 5 ≤ o.fuel) :
+    SpellsAt o (parseAttributes o fuel) s (attrsText first items) (attrsRd s first items) (AttrsFollow o first items) := by
+  apply spells_attributes <;> assumption
+
+/-- `attr (A) ATTRS` -/
+theorem C07_roundtrip_stmt_attr_node (o : POracle) (g0 g1 : List Char) (a : Item) (g3 : List Char) (first : AttrItem)
+    (items : List (List Char × AttrItem))
+    (hg0 : Gap o g0) (hg1 : Gap o g1) (hg3 : Gap o g3) (ha : ExprText o a.n a.cs a.rd a.F) (has : a.Starts o)
+    (haF : a.F (some ')')) (hfirst : AttrText o first)
+    (hfs : ∃ c r, first.cs = c :: r ∧ c ≠ ';' ∧ isWs o c = false)
+    (hkwfol : ∀ x, (g0 ++ ['(']).head? = some x → isIdent o x = false) :
+    StmtText o (max (max a.n first.n) (max (attrsFuel items) (items.length + 1)) + 1) (attrNodeText g0 g1 a g3 first items)
+      (fun s =>
+        let sA := advL s ("attr".toList ++ g0 ++ "(".toList ++ g1)
+        let sT := advL sA (a.cs ++ ")".toList ++ g3)
+        .attrNode (a.rd sA) (attrsRd sT first items) (locOf s))
+      (AttrsFollow o first items) := by
+  apply stmtText_attrNode <;> assumption
+
+/-- `attr (A -> B) ATTRS` -/
+theorem C07_roundtrip_stmt_attr_edge (o : POracle) (g0 g1 : List Char) (a : Item) (g2 : List Char) (b : Item) (g3 : List Char)
+    (first : AttrItem) (items : List (List Char × AttrItem))
+    (hg0 : Gap o g0) (hg1 : Gap o g1) (hg2 : Gap o g2) (hg3 : Gap o g3)
+    (ha : ExprText o a.n a.cs a.rd a.F) (has : a.Starts o) (haF : a.F (some '-'))
+    (hb : ExprText o b.n b.cs b.rd b.F) (hbs : b.Starts o) (hbF : b.F (some ')'))
+    (hfirst : AttrText o first) (hfs : ∃ c r, first.cs = c :: r ∧ c ≠ ';' ∧ isWs o c = false)
+    (hkwfol : ∀ x, (g0 ++ ['(']).head? = some x → isIdent o x = false) :
+    StmtText o (max (max (max a.n b.n) first.n) (max (attrsFuel items) (items.length + 1)) + 1)
+      (attrEdgeText g0 g1 a g2 b g3 first items)
+      (fun s =>
+        let sA := advL s ("attr".toList ++ g0 ++ "(".toList ++ g1)
+        let sB := advL sA (a.cs ++ "->".toList ++ g2)
+        let sT := advL sB (b.cs ++ ")".toList ++ g3)
+        .attrEdge (a.rd sA) (b.rd sB) (attrsRd sT first items) (locOf s))
+      (AttrsFollow o first items) := by
+  apply stmtText_attrEdge <;> assumption
+
+/-- `print EXPR (, EXPR)*` -/
+theorem C07_roundtrip_stmt_print (o : POracle) (g0 : List Char) (e : Item) (items : List (List Char × Item))
+    (hg0 : Gap o g0) (he : ExprText o e.n e.cs e.rd e.F) (hes : e.Starts o)
+    (hkwfol : ∀ x, (g0 ++ e.cs).head? = some x → isIdent o x = false) :
+    StmtText o (max e.n (printFuel items + 1) + 1) (printText g0 e items)
+      (fun s =>
+        let sE := advL s ("print".toList ++ g0)
+        .print (e.rd sE :: printRestRd (advL sE e.cs) items) (locOf s))
+      (fun t => e.F (printRestText items ++ t).head? ∧ TokenStart o (printRestText items ++ t) ∧ PrintRestOK o t items ∧
+        t.head? ≠ some ',' ∧ TokenStart o t) := by
+  apply stmtText_print <;> assumption
+
+/-- conditions `some EXPR` / `none EXPR` -/
+theorem C07_roundtrip_cond_opt (o : POracle) (isSome : Bool) (g : List Char) (e : Item) (hg : Gap o g)
+    (he : ExprText o e.n e.cs e.rd e.F) (hes : e.Starts o)
+    (hkwfol : ∀ x, (g ++ e.cs).head? = some x → isIdent o x = false) :
+    CondText o (condOpt o isSome g e) := by
+  apply condText_opt <;> assumption
+
+/-- a boolean condition -/
+theorem C07_roundtrip_cond_bool (o : POracle) (e : Item) (he : ExprText o e.n e.cs e.rd e.F) :
+    CondText o (condBool o e) := by
+  apply condText_bool <;> assumption
+
+/-- blocks `{ STMT* }` -/
+theorem C07_roundtrip_block (o : POracle) (g0 : List Char) (items : List (StmtItem × List Char)) (fuel : Nat) (s : PS)
+    (hg0 : Gap o g0) (hfu : bodyFuel items + 1 < fuel) (hf5 : 5 ≤ o.fuel) :
+    SpellsAt o (parseStatements o fuel) s (blockText g0 items) (bodyRd (advL s ('{' :: g0)) items)
+      (fun t => BodyOK o t items ∧ TokenStart o (bodyText items ++ '}' :: t)) := by
+  apply spells_block <;> assumption
+
+/-- `for VAR in EXPR BLOCK` -/
+theorem C07_roundtrip_stmt_for (o : POracle) (g0 : List Char) (vc : Char) (vrest gV gIn : List Char) (e : Item) (gB : List Char)
+    (items : List (StmtItem × List Char))
+    (hg0 : Gap o g0) (hgV : Gap o gV) (hgIn : Gap o gIn) (hgB : Gap o gB)
+    (hvc : isIdentStart o vc = true) (hvr : ∀ x ∈ vrest, isIdent o x = true) (hvsemi : vc ≠ ';') (hvws : isWs o vc = false)
+    (hkwfol : ∀ x, (g0 ++ [vc]).head? = some x → isIdent o x = false)
+    (hvfol : ∀ x, (gV ++ "in".toList).head? = some x → isIdent o x = false)
+    (he : ExprText o e.n e.cs e.rd e.F) (hes : e.Starts o) (heF : e.F (some '{')) :
+    StmtText o (max (e.n + 1) (bodyFuel items + 3) + 4) (forText g0 vc vrest gV gIn e gB items)
+      (fun s =>
+        let sV := advL s ("for".toList ++ g0)
+        let sE := advL sV (vc :: vrest ++ gV ++ "in".toList ++ gIn)
+        let sB := advL sE e.cs
+        .forIn (String.ofList (vc :: vrest)) (locOf sV) (e.rd sE) (bodyRd (advL sB ('{' :: gB)) items) (locOf s))
+      (fun t => BodyOK o t items ∧ TokenStart o (bodyText items ++ '}' :: t)) := by
+  apply stmtText_for <;> assumption
+
+/-- `if CONDS BLOCK (elif CONDS BLOCK)* (else BLOCK)?`; every arm is located where its keyword starts -/
+theorem C07_roundtrip_stmt_if (o : POracle) (g0 : List Char) (a : ArmItem) (elifs : List ArmItem) (els : Option ElseItem)
+    (hg0 : Gap o g0) (hgK : a.gK = [])
+    (hkwfol : ∀ x, (g0 ++ a.first.cs).head? = some x → isIdent o x = false) :
+    StmtText o (max (max a.fuel (elifsFuel elifs + 1)) (elseFuel els) + 1) (ifText g0 a elifs els)
+      (fun s =>
+        let sA := advL s ("if".toList ++ g0)
+        let sE := advL sA a.text
+        let sL := advL sE (elifsText elifs)
+        .ifS (((a.rd sA).1, (a.rd sA).2, locOf s) :: elifsRd sE elifs ++ elseRd sL els) (locOf s))
+      (fun t => a.OK o (elifsText elifs ++ (elseText els ++ t)) ∧ ElifsOK o (elseText els ++ t) elifs ∧
+        "elif".toList.isPrefixOf (elseText els ++ t) = false ∧ ElseOK o t els) := by
+  apply stmtText_if <;> assumption
+
+/-- `scan EXPR { ("REGEX" BLOCK)* }` (regular expressions accepted by the regex oracle) -/
+theorem C07_roundtrip_stmt_scan (o : POracle) (g0 : List Char) (e : Item) (g1 : List Char) (arms : List ScanArmItem)
+    (hg0 : Gap o g0) (hg1 : Gap o g1) (he : ExprText o e.n e.cs e.rd e.F) (hes : e.Starts o) (heF : e.F (some '{'))
+    (hkwfol : ∀ x, (g0 ++ e.cs).head? = some x → isIdent o x = false) :
+    StmtText o (max e.n (scanArmsFuel arms + 1) + 1) (scanText g0 e g1 arms)
+      (fun s =>
+        let sE := advL s ("scan".toList ++ g0)
+        let sA := advL sE (e.cs ++ "{".toList ++ g1)
+        .scan (e.rd sE) (scanArmsRd (locOf s) sA arms) (locOf s))
+      (fun t => ScanArmsOK o t arms ∧ TokenStart o (scanArmsText arms ++ '}' :: t)) := by
+  apply stmtText_scan <;> assumption
+
+/-- the query text handed to tree-sitter is exactly the text in front of the first `{` outside strings and comments -/
+theorem C07_query_text : ∀ (q : List Char) (m : QMode) (fuel depth : Nat) (acc tail : List Char) (s : PS),
+    qscan m q = some .plain → s.rest = q ++ '{' :: tail → q.length < fuel →
+    run (skipQuery fuel depth m.inString m.inEscape m.inComment acc) s = (.ok (acc.reverse ++ q), advL s q) := by
+  apply run_skipQuery <;> assumption
+
+/-- stanzas `QUERY BLOCK` (queries accepted by the query oracle as one pattern) -/
+theorem C07_roundtrip_stanza (o : POracle) (st : StanzaItem) (fuel : Nat) (s : PS) (hfu : bodyFuel st.body + 1 < fuel) (hf5 : 5 ≤ o.fuel) :
+    SpellsAt o (parseStanza o fuel) s st.text (st.rd s) (fun t => st.OK o t) := by
+  apply spells_stanza <;> assumption
+
+/-- `global NAME q (= "default")?` after its keyword -/
+theorem C07_roundtrip_global (o : POracle) (g : GlobalItem) (s : PS) :
+    SpellsAt o (parseGlobal o) s g.text (g.rd s) (fun t => g.OK o t) := by
+  apply spells_global <;> assumption
+
+/-- `attribute NAME = VAR => ATTRS` after its keyword -/
+theorem C07_roundtrip_shorthand (o : POracle) (h : ShorthandItem) (fuel : Nat) (s : PS) (hwf : h.WF o) (hfu : h.fuel ≤ fuel) (hf5 : 5 ≤ o.fuel) :
+    SpellsAt o (parseShorthand o fuel) s h.text (h.rd s) (AttrsFollow o h.first h.attrs) := by
+  apply spells_shorthand <;> assumption
+
+/-- **whole files** -/
+theorem C07_roundtrip_file (o : POracle) (text : String) (g0 : List Char) (items : List (FileItem × List Char))
+    (htext : text.toList = fileText g0 items)
+    (hg0 : Gap { o with fuel := text.length + 2 } g0)
+    (htok : TokenStart { o with fuel := text.length + 2 } (fileItemsText items))
+    (hok : FileItemsOK { o with fuel := text.length + 2 } items)
+    (hfu : fileItemsFuel items ≤ 8 * (text.length + 2)) (hlen : 3 ≤ text.length) :
+    parse o text = .ok (fileItemsApply (advL (initState text) g0) emptyFile items) := by
+  apply parse_roundtrip <;> assumption
+
+/-! non-vacuity of the file theorem: a concrete file, for every oracle that answers the one query question -/
+
+def exChars : List Char := ['(', 'm', 'o', 'd', 'u', 'l', 'e', ')', ' ', '@', 'm', ' ', '{', '\n', ' ', ' ', 'n', 'o', 'd', 'e', ' ', 'n', '\n', '}', '\n']
+def exText : String := String.ofList exChars
+
+def exVar (o : POracle) : VarItem :=
+  { it := { n := 2, cs := chainText (.var 'n' []) ['\n'] [],
+            rd := fun s => chainExpr (advL s ((Atom.var 'n' []).text ++ ['\n'])) ((Atom.var 'n' []).expr s) [],
+            F := ChainFollow o (.var 'n' []) ['\n'] [] },
+    vr := fun s => .unscoped "n" (locOf s) }
+
+def exStmt (o : POracle) : StmtItem :=
+  { n := (exVar o).it.n + 2, cs := nodeText [' '] (exVar o),
+    rd := fun s => .createNode ((exVar o).vr (advL s ("node".toList ++ [' ']))) (locOf s),
+    F := fun t => (exVar o).it.F t.head? }
+
+def exQ : List Char := ['(', 'm', 'o', 'd', 'u', 'l', 'e', ')', ' ', '@', 'm', ' ']
+
+def exCaps : List (String × Quant) := [("m", .one), (fullMatchName, .one)]
+
+def exStanza (o : POracle) : StanzaItem :=
+  { q := exQ, gB := ['\n', ' ', ' '], body := [(exStmt o, [])], patterns := 1, caps := exCaps, ix := 1 }
+
+theorem ex_ws_nl (o : POracle) : isWs o '\n' = true := by simp [isWs]
+theorem ex_ws_sp (o : POracle) : isWs o ' ' = true := by simp [isWs]
+
+theorem exVar_ok (o : POracle) : (exVar o).OK o := by
+  refine ⟨?_, ?_⟩
+  · exact exprText_chain o (.var 'n' []) ['\n'] [] (by simp [Atom.WF, isIdentStart, isAlpha]) (Gap.ws '\n' [] (ex_ws_nl o) Gap.nil)
+  · intro s; simp [exVar, chainExpr, Atom.expr, exprVar]
+
+theorem exStmt_text (o : POracle) : StmtText o (exStmt o).n (exStmt o).cs (exStmt o).rd (exStmt o).F :=
+  stmtText_node o [' '] (exVar o) (Gap.ws ' ' [] (ex_ws_sp o) Gap.nil) (exVar_ok o)
+    (by intro x hx; simp at hx; subst hx; simp [isIdent, isAlnum])
+    ⟨'n', ['\n'], by simp [exVar, chainText, Atom.text, segsText], by decide, by simp [isWs]⟩
+
+
+theorem ex_follow (o : POracle) (tail : List Char) : (exStmt o).F ('}' :: tail) := by
+  show ChainFollow o (.var 'n' []) ['\n'] [] (some '}')
+  intro t ht
+  cases t with
+  | nil => simp at ht
+  | cons c r =>
+    simp at ht; subst ht
+    refine ⟨?_, ?_, ?_, ?_⟩
+    · intro x hx; simp [segsText] at hx; subst hx; simp [isIdent, isAlnum]
+    · exact Or.inr ⟨'}', r, by simp [segsText], by decide, by simp [isWs]⟩
+    · exact Or.inr ⟨'}', r, rfl, by decide, by simp [isWs]⟩
+    · simp
+
+theorem exStanza_ok (o : POracle) (t : List Char)
+    (hq : o.query (String.ofList exQ ++ "@" ++ fullMatchName) = some (.valid 1 exCaps)) : (exStanza o).OK o t := by
+  refine ⟨?_, hq, ?_, ?_, ?_, ?_, ?_⟩
+  · show qscan .plain exQ = some .plain
+    decide
+  · show 1 ≤ 1
+    omega
+  · show exCaps.findIdx? (·.1 = fullMatchName) = some 1
+    decide
+  · exact Gap.ws '\n' _ (ex_ws_nl o) (Gap.ws ' ' _ (ex_ws_sp o) (Gap.ws ' ' _ (ex_ws_sp o) Gap.nil))
+  · refine ⟨exStmt_text o, ⟨'n', ['o', 'd', 'e', ' ', 'n', '\n'], by simp [exStmt, nodeText, exVar, chainText, Atom.text, segsText], by decide⟩, Gap.nil, ?_, ?_, trivial⟩
+    · simpa [bodyText] using ex_follow o t
+    · simpa [bodyText] using (tokenStart_cons (o := o) '}' t (by decide) (by simp [isWs]))
+  · exact Or.inr ⟨'n', ['o', 'd', 'e', ' ', 'n', '\n'] ++ '}' :: t, by simp [exStanza, bodyText, exStmt, nodeText, exVar, chainText, Atom.text, segsText], by decide, by simp [isWs]⟩
+
+
+/-- the instantiated round trip for a whole file: for every oracle whose query answer for the stanza's pattern is
+"valid, one pattern, captures `m` and the full match", the text
+`(module) @m {⏎  node n⏎}⏎` parses to one stanza with one `node n` statement, all locations as written -/
+theorem C07_roundtrip_file_example (o : POracle)
+    (hq : o.query (String.ofList exQ ++ "@" ++ fullMatchName) = some (.valid 1 exCaps)) :
+    parse o exText = .ok
+      { globals := [], inherited := [], shorthands := [],
+        stanzas := [{ stmts := [.createNode (.unscoped "n" ⟨1, 7⟩) ⟨1, 2⟩], fullMatchStanzaIx := 1, fullMatchFileIx := usizeMax,
+                      rangeStart := ⟨0, 0⟩, rangeEnd := ⟨2, 1⟩, captures := exCaps }] } := by
+  have hlen : exText.length = 25 := by
+    rw [exText, String.length_ofList]; decide
+  have htl : exText.toList = exChars := by rw [exText, String.toList_ofList]
+  let o' : POracle := { o with fuel := exText.length + 2 }
+  have hq' : o'.query (String.ofList exQ ++ "@" ++ fullMatchName) = some (.valid 1 exCaps) := hq
+  have hnode : "node".toList = ['n', 'o', 'd', 'e'] := by simp
+  have htxt : (exStanza o').text = ['(', 'm', 'o', 'd', 'u', 'l', 'e', ')', ' ', '@', 'm', ' ', '{', '\n', ' ', ' ', 'n', 'o', 'd', 'e', ' ', 'n', '\n', '}'] := by
+    simp only [StanzaItem.text, exStanza, exQ, blockText, bodyText, exStmt, nodeText, exVar, chainText, Atom.text, segsText, hnode]
+    rfl
+  have h1 : exText.toList = fileText [] [(FileItem.stanza (exStanza o'), ['\n'])] := by
+    rw [htl]
+    show exChars = [] ++ ((exStanza o').text ++ (['\n'] ++ []))
+    rw [htxt]; rfl
+  have h2 : Gap o' [] := Gap.nil
+  have h3 : TokenStart o' (fileItemsText [(FileItem.stanza (exStanza o'), ['\n'])]) := by
+    show TokenStart o' ((exStanza o').text ++ (['\n'] ++ []))
+    rw [htxt]
+    exact Or.inr ⟨'(', _, rfl, by decide, by simp [isWs]⟩
+  have h4 : FileItemsOK o' [(FileItem.stanza (exStanza o'), ['\n'])] := by
+    refine ⟨⟨exStanza_ok o' _ hq', ?_, ?_, ?_⟩, Gap.ws '\n' [] (ex_ws_nl _) Gap.nil, Or.inl rfl, trivial⟩
+    · rw [htxt]; simp [List.isPrefixOf]
+    · rw [htxt]; simp [List.isPrefixOf]
+    · rw [htxt]; simp [List.isPrefixOf]
+  have h5 : fileItemsFuel [(FileItem.stanza (exStanza o'), ['\n'])] ≤ 8 * (exText.length + 2) := by
+    rw [hlen]
+    show max (bodyFuel (exStanza o').body + 2) 0 ≤ _
+    simp [exStanza, bodyFuel, exStmt, exVar]
+  have h := parse_roundtrip o exText [] [(FileItem.stanza (exStanza o'), ['\n'])] h1 h2 h3 h4 h5 (by omega)
+  rw [h]
+  have hinit : initState exText = { rest := exChars, row := 0, col := 0, off := 0 } := by
+    simp only [initState, htl]
+  simp only [fileItemsApply, FileItem.apply, emptyFile, StanzaItem.rd, advL_nil, hinit, htxt]
+  simp only [exStanza, bodyRd, exStmt, exVar, exQ, hnode, List.nil_append, List.cons_append]
+  simp [advL, locOf, exChars]
+  decide
+
 
 end C07
